@@ -173,6 +173,10 @@ func (pl *LowNodeLoad) processOneNodePool(ctx context.Context, nodePool *desched
 	logUtilizationCriteria(nodePool.Name, "Criteria for nodes under low thresholds and above high thresholds", lowThresholds, highThresholds,
 		prodLowThresholds, prodHighThresholds, len(lowNodes), len(sourceNodes), len(prodLowNodes), len(prodHighNodes), len(bothLowNodes), len(nodes))
 
+	// a measured node which is not over the high thresholds in this round breaks its run of consecutive abnormalities
+	markOtherNodesAsNormal(nodeUsages, sourceNodes, pl.nodeAnomalyDetectors)
+	markOtherNodesAsNormal(nodeUsages, prodHighNodes, pl.prodAnomalyDetectors)
+
 	if len(sourceNodes) == 0 && len(prodHighNodes) == 0 {
 		klog.V(4).InfoS("All nodes are under target utilization, nothing to do here", "nodePool", nodePool.Name)
 		return nil
@@ -270,6 +274,22 @@ func resetNodesAsNormal(lowNodes []NodeInfo, nodeAnomalyDetectors *gocache.Cache
 		if obj, ok := nodeAnomalyDetectors.Get(v.node.Name); ok {
 			anomalyDetector := obj.(anomaly.Detector)
 			anomalyDetector.Reset()
+		}
+	}
+}
+
+func markOtherNodesAsNormal(nodeUsages map[string]*NodeUsage, abnormalNodes []NodeInfo, nodeAnomalyDetectors *gocache.Cache) {
+	abnormalNodeNames := sets.NewString()
+	for _, v := range abnormalNodes {
+		abnormalNodeNames.Insert(v.node.Name)
+	}
+	for nodeName := range nodeUsages {
+		if abnormalNodeNames.Has(nodeName) {
+			continue
+		}
+		if obj, ok := nodeAnomalyDetectors.Get(nodeName); ok {
+			anomalyDetector := obj.(anomaly.Detector)
+			anomalyDetector.Mark(true)
 		}
 	}
 }
